@@ -191,7 +191,18 @@ def run(ck):
         brets = keep
     if len(brets) != 1:
         raise AnalysisError(f"{bfn.where}: selection function expected to have a single selecting return")
-    sel = as_arg_extreme(ctx, brets[0].value)
+    bval = brets[0].value
+    def _sorted_of_param(x):
+        if not (x[0] == "call" and x[1] == "sorted" and x[2]):
+            return False
+        y = x[2][0]
+        while y[0] == "call" and y[1] in ("list", "tuple", "iter") and len(y[2]) == 1:
+            y = y[2][0]
+        return y == bparam0
+    if bval[0] == "select" and bval[3] == T.NONE and bval[2] == T.mk_idx(bval[1], C(0)) and _sorted_of_param(bval[1]):
+        # `xs[0] if xs else None`  ==  next(iter(xs), None)
+        bval = T.mk_call("next", [T.mk_call("iter", [bval[1]]), T.NONE])
+    sel = as_arg_extreme(ctx, bval)
     if sel is not None and guarded_none and not sel["has_default"]:
         sel["has_default"], sel["default"] = True, T.NONE
     wb = where(bfn, brets[0].node)
@@ -221,7 +232,10 @@ def run(ck):
         probs.append(f"selects by {sel['key']}")
     if sel["kind"] != "max":
         probs.append("selects the minimum")
-    if sel["input"] != bparam:
+    sel_input = sel["input"]
+    while sel_input[0] == "call" and sel_input[1] in ("list", "tuple", "iter") and len(sel_input[2]) == 1 and not sel_input[3]:
+        sel_input = sel_input[2][0]           # a copy of the candidates holds the same candidates
+    if sel_input != bparam:
         probs.append(f"selects from {T.show(sel['input'])[:60]}")
     if not sel["has_default"] or sel["default"] != T.NONE:
         probs.append("no None default for an empty candidate list")
